@@ -221,7 +221,7 @@ def text(ctx, rule):
     # what they do to it, and the property is decided by the model table (R4) alone
     helpers = sorted(set(c.func.id for c in ast.walk(fn) if isinstance(c, ast.Call) and isinstance(c.func, ast.Name) and (mod.last_binding(c.func.id) or ("",))[0] == "def"))
     if helpers:
-        ctx.undecided(rule, "urls_from_text delegates to %s: the per-path analysis is not applicable, see R4" % ", ".join(helpers))
+        ctx.defer(rule, "urls_from_text delegates to %s: the per-path analysis is not applicable, see R4" % ", ".join(helpers))
         return
     g = CFG(fn)
     site = mod.site(fn)
